@@ -113,23 +113,37 @@ MaxNo(ps) == CHOOSE m \in { ps[i].no : i \in Idx(ps) } : \A i \in Idx(ps) : ps[i
 
 ThmIdempotent(a)     == Merge(a, a) = Ok(a)
 ThmCommutative(a, b) == Merge(a, b) = Merge(b, a)                  \* same verdict AND same result
+
+\* The theorems about groupings, over outs = the outcomes of all groupings and orders of ps.
 \* whatever grouping and order succeeds, succeeds with one and the same result ...
-ThmDefinedAgree(ps)  == Cardinality({ o \in Outs(ps) : o.ok }) <= 1
+DefinedAgree(outs)  == Cardinality({ o \in outs : o.ok }) <= 1
 \* ... which holds every item any copy held (pointwise-longest lists, any bsk, bit 7 only if all) ...
-ThmKeeps(ps) ==
-    \A o \in Outs(ps) : o.ok =>
+Keeps(ps, outs) ==
+    \A o \in outs : o.ok =>
         /\ o.v.ns = MaxNs(ps) /\ o.v.no = MaxNo(ps)
         /\ \A i \in Idx(ps) : Leq(ps[i], o.v)
         /\ Mod(o.v) <=> \A i \in Idx(ps) : Mod(ps[i])
 \* ... and whose value balance is the one that belongs to exactly those items
-ThmValueSum(ps) == \A o \in Outs(ps) : o.ok => o.v.vs = VS(o.v.ns, o.v.no)
+ValueSumOk(outs) == \A o \in outs : o.ok => o.v.vs = VS(o.v.ns, o.v.no)
 \* every grouping and order succeeds iff every two copies combine
-ThmAllOkIffPairwise(ps) == (\A o \in Outs(ps) : o.ok) <=> Pairwise(ps)
-\* within one stage and on a chain, combining is a function of the SET of copies:
-ThmGroupings(ps)        == Chain(ps) /\ SameStage(ps) => \A t \in Trees(Len(ps)) : Eval(t, ps) = Combine(ps)
-ThmFailsIffPairwise(ps) == Chain(ps) /\ SameStage(ps) => (Combine(ps).ok <=> Pairwise(ps))
+AllOkIffPairwise(ps, outs) == (\A o \in outs : o.ok) <=> Pairwise(ps)
+\* within one stage and on a chain, combining is a function of the SET of copies: every grouping and
+\* order gives what the fold gives, and it fails iff some two copies do not combine
+Groupings(ps, outs)        == Chain(ps) /\ SameStage(ps) => outs = {Combine(ps)}
+FailsIffPairwise(ps)       == Chain(ps) /\ SameStage(ps) => (Combine(ps).ok <=> Pairwise(ps))
 \* off a chain some grouping refuses (the pair that grew on different axes cannot be combined first)
-ThmOffChainRefused(ps)  == ~Chain(ps) /\ (\A i \in Idx(ps) : ps[i].bsk = Bot) => \E o \in Outs(ps) : ~o.ok
+OffChainRefused(ps, outs)  == ~Chain(ps) /\ (\A i \in Idx(ps) : ps[i].bsk = Bot) => \E o \in outs : ~o.ok
+
+ThmDefinedAgree(ps) == DefinedAgree(Outs(ps))
+ThmAll(ps) ==
+    LET outs == Outs(ps)
+    IN  /\ DefinedAgree(outs)
+        /\ Keeps(ps, outs)
+        /\ ValueSumOk(outs)
+        /\ AllOkIffPairwise(ps, outs)
+        /\ Groupings(ps, outs)
+        /\ FailsIffPairwise(ps)
+        /\ OffChainRefused(ps, outs)
 
 \* Merge succeeds exactly when a common later stage exists in U whose value balance one of the two
 \* copies already carries, and is then the least such stage.
